@@ -156,8 +156,15 @@ def check(ctx):
     for p in returns(it.run_function(q)):
         pl = plots(p, q)
         loops = [e for e in p.events if e.kind == "for_iter" and e.func == q]
-        modk = ("eq", nf.key(nf.fn("op:Mod", nf.sym("i"), nf.sym("every"))))
-        sel = next((c for k, c, d in p.decisions if k == modk), None)
+        # the selection predicate <index> % every == 0, whatever the index variable is called
+        sel, ivar = None, None
+        for k, c, d in p.decisions:
+            if k[0] == "eq":
+                at = it.single_atom(nf.unkey(k[1]))
+                if at is not None and at[0] == "fn" and at[1] == "op:Mod" and len(at[2]) == 2 and nf.unkey(at[2][1]) == nf.sym("every"):
+                    iv = it.single_atom(nf.unkey(at[2][0]))
+                    if iv is not None and iv[0] == "sym":
+                        sel, ivar = c, iv[1]
         sig = tuple(nf.key(it.to_nf(e.data["args"].get(k))) for e in pl for k in ("0", "1") if e.data["args"].get(k) is not None) + (tag(p),)
         if sig in seen:
             continue
@@ -168,7 +175,7 @@ def check(ctx):
         if okl:
             itv = loops[0].data["iter"]
             if isinstance(itv, EnumV) and it.to_nf(itv.inner) == PP:
-                row = nf.fn("[]", PP, nf.sym("i"))
+                row = nf.fn("[]", PP, nf.sym(ivar)) if ivar else None
                 okl = sel is not None
                 if sel is False:
                     ctx.check(not pl, "C20-b", q + ":skipped profiles " + tag(p), f.where(), "profiles whose index is not a multiple of `every` are not drawn", signature="extra profile")
